@@ -186,6 +186,10 @@ func (s *Server) handleChannel(ctx context.Context, sshConn gossh.Conn,
 
 	if err := s.handleRequests(ctx, sshConn, requests, channel, user); err != nil {
 		dlog.Server.Error(user, err)
+		// Keep draining the channel's requests: once a few of them are pending unread, the
+		// connection's multiplexer blocks for good, the connection never ends and its slot is
+		// never given back.
+		go gossh.DiscardRequests(requests)
 		sshConn.Close()
 	}
 }
